@@ -262,4 +262,10 @@ def run(p, rep, tier):
     r5(p, rep)
     r6(p, rep)
     r7(p, rep)
+    from . import c06 as _c06
+
+    _c06.r7(p, rep)  # the set of candidate output expressions relies on hash/eq consistency of the expression classes
+    from . import c11 as _c11
+
+    _c11.r8(p, rep)  # a backend whose factory module deviates from its siblings behaves differently for this property
     rep.info["undecided"] = "every value-level equivalence between a short and its long form (ellipsis expansion, '->'/',' distribution, adjacent brackets, length-1 coordinate brackets, extra spaces)"
